@@ -49,6 +49,8 @@ func SQLiteDSN(filename string, fileScheme, memory bool) string {
 			"foreign_keys(1)",
 			"journal_mode(wal)",
 			"busy_timeout(10000)",
+			// LIKE is case-insensitive in SQLite by default, unlike PostgreSQL
+			"case_sensitive_like(1)",
 		},
 		// ref: https://gitlab.com/cznic/sqlite/-/issues/92
 		// we need BEGIN IMMEDIATE for several use cases to work
